@@ -167,7 +167,9 @@ func TestHistoriesGenerated(t *testing.T) {
 	harness.Check(t, "histories-generated", 4000, 150000, func(rt *rapid.T) {
 		v := rapid.SampledFrom(px.KeyVersions).Draw(rt, "version")
 		c := progs.Draw(rt, v, progs.Options(v), 1, 4)
-		lay := c.G.Render(c.Root, progs.Policy(rt, phpgen.PolicyFull, nil))
+		pol := progs.Policy(rt, phpgen.PolicyFull, nil)
+		pol.Shebang = rapid.IntRange(0, 3).Draw(rt, "shebang") == 0
+		lay := c.G.Render(c.Root, pol)
 		runHistory(rt, lay.Src, v, "generated")
 		c.Report()
 	})
